@@ -57,9 +57,17 @@ def check(run):
                     break
         run.bounded.append({"what": "native sensor_model on generic models (1..3 readings, unequal noise) vs exact rational textbook update; reading = prediction; inputs unmodified", "bound": f"{len(shapes)} shapes x 2 readings", "failures": fails, "counted_as_proved": False})
 
+    from checks.ekf_common import stateful_sweep
+
+    stateful_sweep(run, "C05", ('update',), run.tier == "thorough" or any(r.status != "ok" for r in run.reports) or bool(run.undecided) or bool(run.findings))
+
 
 def replay_file(payload):
     inp = payload["inputs"]
+    if inp.get("sequence"):
+        from checks.ekf_common import replay_sequence
+
+        return replay_sequence(inp)
     problems, sc = native(inp["shape"], inp.get("seed", 0), None, **inp.get("kw", {}))
     print("replay C05:", problems[:4] if problems else "update equals the textbook Kalman correction")
     return not problems
